@@ -179,6 +179,9 @@ func (p *Program) parseContracts(path string, overlay []byte) error {
 				return fail("%v", err)
 			}
 			sf.Line = ln + 1
+			if _, dup := p.specs[sf.Name]; dup {
+				return fail("duplicate spec %s", sf.Name)
+			}
 			p.specs[sf.Name] = sf
 			cur = nil
 			last = nil
@@ -193,6 +196,9 @@ func (p *Program) parseContracts(path string, overlay []byte) error {
 			lm.Auto = true
 			lm.LemmaOnly = true
 			lm.Proved = "definition"
+			if _, dup := p.lemmas[lm.Name]; dup {
+				return fail("duplicate lemma/axiom %s", lm.Name)
+			}
 			p.lemmas[lm.Name] = lm
 			cur = nil
 			last = nil
@@ -208,6 +214,9 @@ func (p *Program) parseContracts(path string, overlay []byte) error {
 			if strings.HasPrefix(t, "autoaxiom ") {
 				lm.Proved = "definition"
 			}
+			if _, dup := p.lemmas[lm.Name]; dup {
+				return fail("duplicate lemma/axiom %s", lm.Name)
+			}
 			p.lemmas[lm.Name] = lm
 			cur = nil
 			last = nil
@@ -222,6 +231,9 @@ func (p *Program) parseContracts(path string, overlay []byte) error {
 				lm.Proved = "definition"
 			} else {
 				lm.Proved = "assumed"
+			}
+			if _, dup := p.lemmas[lm.Name]; dup {
+				return fail("duplicate lemma/axiom %s", lm.Name)
 			}
 			p.lemmas[lm.Name] = lm
 			cur = nil
